@@ -213,6 +213,16 @@ def gen(rng, tier, shape=None):
         src = ("frozenset({%s})" if rng.random() < 0.3 else "{%s}") % ", ".join(parts)
         return {"op": "eq", "vals": [src], "tags": ["frozenset", "set", "setmode:nonorderable-nested"],
                 "placement": rng.choice(["assert", "module"]), "seeds": True}
+    if rng.random() < 0.05:
+        # a lone string the formatter must wrap (longer than the line), padded so that a docstring formatter would strip it:
+        # always compared across formatter present / missing / replaced (C16) and re-read (C01)
+        n = rng.randint(84, 120)
+        pad = rng.choice([(" ", " "), (" ", ""), ("", " "), ('"', ' '), ("'", "")])
+        src = repr(pad[0] + "w" * n + pad[1])
+        if rng.random() < 0.4:
+            src = rng.choice(["[1, %s]", "{'k': %s}", "(%s,)"]) % src        # not lone: inside a container written as a whole
+        return {"op": rng.choice(["eq", "eq", "in", "getitem"]), "vals": [src] if True else [], "tags": ["longstr", "str"],
+                "placement": rng.choice(["assert", "module"]), "seeds": True}
     op = rng.choice(["eq", "eq", "eq", "eq", "le", "ge", "in", "getitem"])
     if op in ("le", "ge"):
         fam = rng.choice(["int", "str"])
